@@ -1,0 +1,8 @@
+//go:build verif
+// +build verif
+
+package loadbalance
+
+// VerifGCD exposes gcd to the verification harness in /verif (read-only accessor, build tag
+// "verif"; nothing else in this package refers to it).
+func VerifGCD(x, y int64) int64 { return gcd(x, y) }
